@@ -39,7 +39,8 @@ SETTINGS = {
     "fhmruvv": ("use_fhmruvv", [True, False]),
     "em_running": ("em_running", [False, True]),
 }
-MOMENTS = [2.0, 3.3]
+# N = 2 exactly is avoided: the O(a_s^3) matching elements are 0/0 there (known finding, C26)
+MOMENTS = [2.3, 3.3]
 
 
 def _cfg(case, value):
